@@ -352,6 +352,11 @@ static void run_purity(int L, int shard, int nsh)
     bool haveA0 = false;
     Structure A1, A2;
     bool havePair = false;
+    // two structures whose pawn keys agree in the low 32 bits (a cache that verifies only part of the
+    // key confuses them); found by a birthday search over the same enumeration
+    Structure A3, A4;
+    bool haveLow32 = false;
+    std::unordered_map<uint32_t, Structure> low32;
     std::map<uint64_t, size_t> slot2idx;
     std::vector<int> sqs;
     for (int s = 8; s < 56; ++s) sqs.push_back(s);
@@ -364,6 +369,19 @@ static void run_purity(int L, int shard, int nsh)
     };
     auto consider = [&](const Structure& st) {
         ++tried;
+        if (!haveLow32 && low32.size() < 400000 && st.key != 0)
+        {
+            auto it = low32.find(uint32_t(st.key));
+            if (it != low32.end() && it->second.key != st.key && usable(st) && usable(it->second))
+            {
+                A3 = it->second;
+                A4 = st;
+                haveLow32 = true;
+                low32.clear();
+            }
+            else if (it == low32.end())
+                low32.emplace(uint32_t(st.key), st);
+        }
         uint64_t slot = st.key & (PAWN_SLOTS - 1);
         if (slot == 0 && st.key != 0 && !haveA0)
         {
@@ -391,14 +409,14 @@ static void run_purity(int L, int shard, int nsh)
         }
     };
     const char cols[2] = {'P', 'p'};
-    for (int n = 1; n <= 4 && !(haveA0 && havePair); ++n)
+    for (int n = 1; n <= 4 && !(haveA0 && havePair && (haveLow32 || low32.size() >= 400000)); ++n)
     {
         std::vector<int> idx(n);
         std::function<void(int, int)> rec = [&](int i, int lo) {
-            if (haveA0 && havePair) return;
+            if (haveA0 && havePair && (haveLow32 || low32.size() >= 400000)) return;
             if (i == n)
             {
-                for (int mask = 0; mask < (1 << n) && !(haveA0 && havePair); ++mask)
+                for (int mask = 0; mask < (1 << n) && !(haveA0 && havePair && (haveLow32 || low32.size() >= 400000)); ++mask)
                 {
                     Structure st;
                     std::string pl(64, '.');
@@ -420,7 +438,7 @@ static void run_purity(int L, int shard, int nsh)
             {
                 idx[i] = s;
                 rec(i + 1, s + 1);
-                if (haveA0 && havePair) return;
+                if (haveA0 && havePair && (haveLow32 || low32.size() >= 400000)) return;
             }
         };
         rec(0, 0);
@@ -445,6 +463,12 @@ static void run_purity(int L, int shard, int nsh)
     add(make_fen(A2, 1, 0));
     add(make_fen(none, 0, 0));   // pawnless, key 0
     add(make_fen(none, 2, 1));
+    if (haveLow32)
+    {
+        add(make_fen(A3, 0, 0));
+        add(make_fen(A4, 0, 0));
+        R.count("alphabets_with_low32_pair");
+    }
     if (alpha.size() < 8)
     {
         fprintf(stderr, "alphabet incomplete (%zu)\n", alpha.size());
@@ -511,6 +535,21 @@ static void run_purity(int L, int shard, int nsh)
         }
         sub.states++;
         R.outcome(desc.substr(0, 2));
+    }
+    if (haveLow32)
+    {
+        // the pair with equal low key halves, both orders, on one evaluator each
+        for (int order = 0; order < 2; ++order)
+        {
+            PositionScorer sc;
+            size_t a = alpha.size() - 2 + size_t(order), b = alpha.size() - 1 - size_t(order);
+            sc.score(pos[a]);
+            Value v = sc.score(pos[b]);
+            sub.transitions += 2;
+            if (v != expect[b])
+                R.violation("C14:impure:no_clear:structures_with_equal_low_key_half",
+                            mc::JObj().s("first", alpha[a]).s("second", alpha[b]).n("score", v).n("fresh_score", expect[b]));
+        }
     }
     sub.exhaustive = true;
     R.subspaces.push_back(sub);
